@@ -93,6 +93,17 @@ TEXT["C06"] = dict(
     design_ref="5 (C06)",
 )
 
+TEXT["C03"] = dict(
+    category="exploration",
+    technique="seeded simulation (chain world): every suspension point of generated await/yield-from chains; oracle = traceback of an injected BaseException thrown into the same state (replayed per suspension)",
+    text="Generated chains of depth 0-6 over every link kind (await coroutine / generator-based coroutine / __await__ returning coroutine-wrapper, generator function or generator; yield from; "
+    "async for, __anext__, asend, in-flight athrow and aclose on native async generators), levels optionally inside with blocks, except handlers or finally bodies, ending in a trap or a plain-iterator leaf. "
+    "For every suspension point the chain is rebuilt from the same tape, extract(x) is taken, then a Probe(BaseException) is thrown in: Stack.frames must be the traceback's frame objects with equal line numbers; "
+    "root, leaf, exhausted targets and with_contexts=False are checked too.",
+    note="Trusted: CPython's traceback of the thrown exception; on <=3.11 that traceback is sparse below a frame that is handling another exception, there only an ordered sub-sequence is demanded (counted in evidence).",
+    design_ref="5 (C03)",
+)
+
 PENDING_REASON = "check not built yet in this round (work in progress; see DESIGN.md section 5 for the planned simulation)"
 
 ALL = ["C%02d" % i for i in range(1, 21)]
